@@ -16,8 +16,12 @@ struct Rec<'a> {
     yaml: &'a str,
     batch: Vec<Vec<String>>,
     iter: Vec<Vec<String>>,
+    biter: Vec<Vec<String>>,
     single: Vec<String>,
 }
+
+/// the budget of the budgeted iterators: every document kind stays below it except "BF" / "BI"
+const BYTES_LIMIT: usize = 8;
 
 /// element type of the stream documents: integers or small maps (so that a mapping can carry an anchor)
 #[derive(Deserialize, Debug, PartialEq)]
@@ -65,6 +69,10 @@ fn kind_text(k: &str, variant: usize) -> &'static str {
         ("AN", _) => "\n- 7\n- *a",
         ("S", 0) => "[1, }",
         ("S", _) => "\"a\" b",
+        ("BF", 0) => "xxxxxxxxxxxx",
+        ("BF", _) => "\"yyyyyyyyyyyyy\"",
+        ("BI", 0) => "[1, 2, xxxxxxxxxxxx]",
+        ("BI", _) => "\n- 1\n- 2\n- yyyyyyyyyyyyy",
         ("U", 0) => "[1, 2",
         ("U", _) => "[1, [2",
         _ => "?",
@@ -87,7 +95,7 @@ fn item_of(r: Result<Doc, serde_saphyr::Error>) -> String {
         Ok(v) => val_kind(&v),
         Err(e) => {
             let c = classify(&e);
-            if c == "Syntax" || c == "AnchorUse:unknown" || c == "Type:Eof" { "syntax".into() } else if c.starts_with("Type") || c.starts_with("Alias") { "type".into() } else { format!("other:{c}") }
+            if c == "Syntax" || c == "AnchorUse:unknown" || c == "Type:Eof" { "syntax".into() } else if c.starts_with("Budget") { "budget".into() } else if c.starts_with("Type") || c.starts_with("Alias") { "type".into() } else { format!("other:{c}") }
         }
     }
 }
@@ -118,9 +126,10 @@ pub fn render(kinds: &[String], variant: usize) -> String {
     t
 }
 
-pub fn observe(text: &str) -> (Vec<Vec<String>>, Vec<Vec<String>>, Vec<String>) {
+pub fn observe(text: &str) -> (Vec<Vec<String>>, Vec<Vec<String>>, Vec<Vec<String>>, Vec<String>) {
     let mut batch = vec![];
     let mut iters = vec![];
+    let mut biters = vec![];
     let mut single = vec![];
     // batch: str and slice
     let b = |r: Result<Vec<Doc>, serde_saphyr::Error>| -> Vec<String> {
@@ -178,6 +187,38 @@ pub fn observe(text: &str) -> (Vec<Vec<String>>, Vec<Vec<String>>, Vec<String>) 
             .unwrap_or_else(|p| vec![format!("PANIC:{p}")]),
         );
     }
+    // the iterators with a budget that the "BF" / "BI" documents exceed
+    for which in ["options", "valid", "validate"] {
+        let t = text.to_string();
+        biters.push(
+            guarded(move || {
+                let mut rd = std::io::Cursor::new(t.into_bytes());
+                let mut out = vec![];
+                let mut o = serde_saphyr::Options::default();
+                let mut b = serde_saphyr::Budget::default();
+                b.max_total_scalar_bytes = BYTES_LIMIT;
+                o.budget = Some(b);
+                macro_rules! drain {
+                    ($it:expr, $f:expr) => {
+                        for (n, r) in $it.enumerate() {
+                            if n > 40 {
+                                out.push("NONTERMINATING".to_string());
+                                break;
+                            }
+                            out.push(item_of(r.map($f)));
+                        }
+                    };
+                }
+                match which {
+                    "valid" => drain!(serde_saphyr::read_with_options_valid::<_, VDoc>(&mut rd, o), |v: VDoc| v.0),
+                    "validate" => drain!(serde_saphyr::read_with_options_validate::<_, VDoc>(&mut rd, o), |v: VDoc| v.0),
+                    _ => drain!(serde_saphyr::read_with_options::<_, Doc>(&mut rd, o), |v: Doc| v),
+                }
+                out
+            })
+            .unwrap_or_else(|p| vec![format!("PANIC:{p}")]),
+        );
+    }
     // single
     let s = |r: Result<Doc, serde_saphyr::Error>| -> String {
         match r {
@@ -191,7 +232,7 @@ pub fn observe(text: &str) -> (Vec<Vec<String>>, Vec<Vec<String>>, Vec<String>) 
     single.push(guarded(move || s(serde_saphyr::from_reader::<_, Doc>(std::io::Cursor::new(t5.into_bytes())))).unwrap_or_else(|p| format!("PANIC:{p}")));
     let t6 = text.to_string();
     single.push(guarded(move || s(serde_saphyr::from_slice::<Doc>(t6.as_bytes()))).unwrap_or_else(|p| format!("PANIC:{p}")));
-    (batch, iters, single)
+    (batch, iters, biters, single)
 }
 
 #[derive(Default, Serialize)]
@@ -213,14 +254,14 @@ pub fn run(args: &Args) -> i32 {
         if !seen.insert(text.clone()) {
             return;
         }
-        let (batch, iter, single) = observe(&text);
+        let (batch, iter, biter, single) = observe(&text);
         if kinds.len() >= 2 {
             stats.nontrivial += 1;
         }
         if stats.samples.len() < 4 && kinds.len() >= 3 && variant == 1 {
             stats.samples.push(serde_json::json!({"id": id, "kinds": kinds, "yaml": text, "iter": iter}));
         }
-        w.put(&Rec { id, kinds, yaml: &text, batch, iter, single });
+        w.put(&Rec { id, kinds, yaml: &text, batch, iter, biter, single });
     };
     if let Some(cases) = args.get("cases") {
         let cases: Vec<Case> = read_ndjson(cases);
@@ -233,10 +274,10 @@ pub fn run(args: &Args) -> i32 {
     }
     let nrand = args.num("random", 0);
     let mut rng = Rng::new(args.num("seed", 1));
-    let all = ["V", "W", "D", "E", "N", "TE", "TL", "AN", "A", "S", "U"];
+    let all = ["V", "W", "D", "E", "N", "TE", "TL", "AN", "BF", "BI", "A", "S", "U"];
     for i in 0..nrand {
         let n = 4 + rng.below(8);
-        let kinds: Vec<String> = (0..n).map(|_| if rng.chance(1, 8) { all[8 + rng.below(3)] } else { all[rng.below(8)] }.to_string()).collect();
+        let kinds: Vec<String> = (0..n).map(|_| if rng.chance(1, 8) { all[10 + rng.below(3)] } else { all[rng.below(10)] }.to_string()).collect();
         let v = rng.below(24);
         one(format!("r{i}-{v}"), &kinds, v, &mut w, &mut stats);
     }
